@@ -165,7 +165,7 @@ def _validate(ctx, recs, name):
     rout = ctx.path(name + ".verdicts.json")
     with open(rin, "w") as fh:
         json.dump([{k: r[k] for k in TLC_FIELDS} for r in recs], fh)
-    core.run_tlc(ctx, "Trace_YMultiDoc", "Trace_YMultiDoc.cfg", env={"RECORDS_IN": rin, "VERDICTS_OUT": rout, "JAVA_TOOL_OPTIONS": "-Xss512m"},   # deep recursive folds
+    core.run_tlc(ctx, "Trace_YMultiDoc", "Trace_YMultiDoc.cfg", env={"RECORDS_IN": rin, "VERDICTS_OUT": rout},
                  workers=1, name=name, heap="3g")
     if not os.path.exists(rout):
         raise core.MachineryError("Trace_YMultiDoc wrote no verdicts (%s)" % name)
